@@ -18,11 +18,21 @@ func init() { Register(c16{}) }
 
 func (c16) ID() string { return "C16" }
 
-func (c16) NumCases(tier string) int {
+// the fault and restart families are expensive (hundreds of runs per world),
+// the input-failure worlds cost one or two runs each: the index range above
+// c16Heavy(tier) holds input-failure worlds only
+func c16Heavy(tier string) int {
 	if tier == "thorough" {
 		return 60_000
 	}
 	return 400
+}
+
+func (c16) NumCases(tier string) int {
+	if tier == "thorough" {
+		return c16Heavy(tier) + 400_000
+	}
+	return c16Heavy(tier) + 6_000
 }
 
 func (c16) Describe() CheckInfo {
@@ -64,7 +74,7 @@ var c16Errnos = map[string][]string{
 func (c16) Gen(env *Env, seed uint64, tier string, i int) *Case {
 	r := world.NewPRNG(world.Mix(seed, 16, uint64(i)))
 	sub := "faults"
-	if i%4 == 3 {
+	if i%4 == 3 || i >= c16Heavy(tier) {
 		sub = "inputs"
 	} else if i%4 == 1 {
 		sub = "restart"
@@ -122,6 +132,9 @@ func (c16) Gen(env *Env, seed uint64, tier string, i int) *Case {
 		}
 	}
 	AddDecoys(c, r)
+	if r.Chance(1, 5) {
+		AddHardlinkTarget(c, r)
+	}
 	c.Flags = Flags{SkipImport: r.Chance(1, 4), Verbose: r.Chance(1, 4)}
 	if r.Chance(1, 6) {
 		c.Flags.Diff = true
@@ -291,6 +304,18 @@ func (c16) Eval(env *Env, c *Case) []Violation {
 	init := c.InitialState()
 	var vs []Violation
 	seenSig := map[string]bool{}
+	// exit status 0 of the fault-free run is trustworthy too: every file built to
+	// match has been patched
+	if pilot.Exit == 0 && !c.Flags.Diff && !c.Flags.Print && len(c.Spec.Faults) == 0 {
+		o0, f0 := goFiles(init), goFiles(pilot.Final)
+		for _, f := range c.SortedFiles() {
+			if f.Role == "match" && bytes.Equal(o0[f.Path].Data, f0[f.Path].Data) {
+				env.Probe("pilot-sanity-checked")
+				vs = append(vs, Violation{Oracle: "exit-status", Signature: "C16/exit-status/zero-but-unpatched/fault-free", Detail: fmt.Sprintf("the fault-free run exits 0 but left %s, which the patch matches, unpatched (args %v)", f.Path, c.Spec.Args)})
+				break
+			}
+		}
+	}
 	judge := func(faults []world.Fault, class string) {
 		spec := base.Clone()
 		spec.Faults = faults
